@@ -316,6 +316,37 @@ def check_cross(records, idxs, tmpdir):
                 break
         if bad:
             problems.append((rec, "instruction %d differs: listing assembles to `%s`, orc emitted `%s`" % bad, False))
+    # what `orcc --assembly` writes for a file with several functions is the concatenation of their listings: two listings that
+    # assemble on their own must assemble together.  The second one gets the first one's function name with "1" appended (k, k1),
+    # which is how separator-less label schemes collide.
+    prev = {}
+    npairs = 0
+    for i in idxs:
+        rec = records[i]
+        if any(q[0] is rec for q in problems):
+            continue
+        m = re.search(r"^\.global\s+(\S+)", rec["asm"], re.M)
+        if not m:
+            continue
+        t = rec["target"]
+        if t in prev and npairs < 400:
+            first, fname = prev[t]
+            m2 = re.search(r"^\.global\s+(\S+)", first["asm"], re.M)
+            name1 = m2.group(1)
+            # every occurrence of the second function's name, also inside local labels (.L<name>_<n>, .L<name><n>), becomes <name1>1
+            second = re.sub(r"%s(?![A-Za-z])" % re.escape(m.group(1)), name1 + "1", rec["asm"])
+            base = os.path.join(tmpdir, "pair%d" % i)
+            with open(base + ".s", "w") as f:
+                f.write(CROSS[t]["prefix"] + first["asm"] + "\n" + second + "\n")
+            r = run([LLVM_MC, "-filetype=obj"] + CROSS[t]["mc"] + [base + ".s", "-o", base + ".o"])
+            npairs += 1
+            if r.returncode != 0 and "already defined" in r.stdout:
+                line = [l for l in r.stdout.split("\n") if "already defined" in l][:1]
+                problems.append((rec, "two listings that assemble separately do not assemble as one file (as orcc --assembly writes them): %s" % (
+                    line[0].split("error:", 1)[-1].strip()[:120]), False))
+            del prev[t]
+        else:
+            prev[t] = (rec, m.group(1))
     return problems, nchecked
 
 
